@@ -19,6 +19,7 @@ import (
 	"runtime"
 	"sort"
 	"strconv"
+	"strings"
 	"sync"
 	"sync/atomic"
 	"testing/synctest"
@@ -93,6 +94,7 @@ type Task struct {
 	steps      int
 	idle       bool // parked in WaitQuiescent
 	exitPoints int
+	where      string
 	exiting    bool
 	Panic      any
 	PanicStk   string
@@ -343,6 +345,9 @@ func PointT(kind Kind, obj any, pred Pred) *Task {
 		runtime.Goexit()
 	}
 	t.kind, t.obj, t.pred = kind, obj, pred
+	if s.cfg.TraceEvents {
+		t.where = callSite()
+	}
 	raceDisable()
 	t.state.Store(int32(stParked))
 	<-t.wake
@@ -844,7 +849,7 @@ func (s *Sched) loop(res *Result) {
 		}
 		s.mixSig(uint64(x.seq)<<8 | uint64(x.kind))
 		if s.cfg.TraceEvents {
-			s.logf("run %s %s", x, x.kind)
+			s.logf("run %s %s %s", x, x.kind, x.where)
 		}
 		s.cur = x
 		x.state.Store(int32(stRunning))
@@ -964,5 +969,25 @@ func (s *Sched) pick(enabled []*Task) int {
 		return c
 	default:
 		return s.rng.Intn(n)
+	}
+}
+
+// callSite names the first frame outside simrt (trace mode only).
+func callSite() string {
+	var pcs [12]uintptr
+	n := runtime.Callers(3, pcs[:])
+	fr := runtime.CallersFrames(pcs[:n])
+	for {
+		f, more := fr.Next()
+		if f.Function != "" && !strings.HasPrefix(f.Function, "simrt") {
+			fn := f.Function
+			if i := strings.LastIndex(fn, "/"); i >= 0 {
+				fn = fn[i+1:]
+			}
+			return fmt.Sprintf("%s:%d", fn, f.Line)
+		}
+		if !more {
+			return ""
+		}
 	}
 }
